@@ -626,6 +626,12 @@ class GBNFCompiler:
 
         for field_name, field_def in schema.fields.items():
             rule_name = self._sanitize_rule_name(field_name)
+            # Keep rule names unique: sanitisation is not injective (A.B / A_DOT_B) and a field may be
+            # called like a structural rule (CONTENT -> content); a rule defined twice is not valid GBNF.
+            base_name, suffix = rule_name, 2
+            while rule_name in field_rule_names or rule_name in ("ws", "field", "content", "document", "root"):
+                rule_name = f"{base_name}-{suffix}"
+                suffix += 1
             field_rule_names.append(rule_name)
 
             # Get constraint pattern
